@@ -1,4 +1,4 @@
-HOOK_COMMITS = []
+HOOK_COMMITS = ["fa41d26"]
 
 PENDING = "not claimed yet: the model, theorems and correspondence for this property are still being built (see DESIGN.md §5 for the order of work)"
 NOT_APPLICABLE = {("C%02d" % i): PENDING for i in range(1, 21)}
@@ -105,5 +105,12 @@ META = {
         "note": "Trusted: Coq kernel + vm_compute; serde view of the container. Partial: the refinement of mutate_p to the specification is established differentially after every mutation, not by a Coq proof over all mutation sequences.",
         "technique": "Coq proof of the navigation specification + per-mutation differential check of every link field against it",
         "design_ref": "DESIGN.md §3 C11",
+    },
+    "C18": {
+        "text": "Coq theorem over all sequences of calls of any length: if each call, started from full pools, never exhausts a pool and returns everything, then no sequence of calls can ever fail with pool exhaustion and the occupancy at every call boundary equals the initial one. "
+                "The premise is checked in Coq (vm_compute of the pool machine) on the real borrow/return trace of every public call — Ising updates with every option combination, RVB sweeps, generic steps with loops/clusters/isolated variables, windowed and sub-variable container calls — against capacities re-extracted from the source on this run; peaks reach the capacities exactly.",
+        "note": "Trusted: Coq kernel + vm_compute; tools/extract.py; the allocator hook. Limitation: 'on every control path' is covered only for the paths the traced calls take (no static path analysis of the Rust code).",
+        "technique": "Coq proof (induction over call sequences) + hook-traced correspondence with generated capacities",
+        "design_ref": "DESIGN.md §3 C18",
     },
 }
